@@ -186,6 +186,7 @@ func TestC06Stateful(t *testing.T) {
 	runRapid(t, col, func(rt *rapid.T, h *ev.History) {
 		n := rapid.SampledFrom([]int{1, 1, 3}).Draw(rt, "n")
 		standalone := rapid.IntRange(0, 2).Draw(rt, "netmapAlone") == 0
+		drawValidators(rt, h, n)
 		w := newC06World(n, h, standalone)
 		if standalone {
 			h.Mark("netmap-without-balance")
